@@ -100,6 +100,10 @@ fn f(limit: u64, xs: Vec<u64>) -> Option<u64>
     let top = xs.iter()
         .map(|elem| elem.saturating_add(1))
         .max();
+    #[cfg(feature = "verif")]
+    let _probe = crate::verif::probe("f");
+    #[cfg(feature = "verif")]
+    { crate::verif::point("f.match"); }
     #[allow(unused)]
     match top { Some(v) if v > limit => Some(limit), Some(v) => Some(v.min(limit)), None => None }
 }
@@ -109,6 +113,7 @@ t1, r1 = gen(HARMLESS)
 check("base translates", all(r["ok"] for r in r0), r0)
 body = lambda t: t[t.index("def f"):]   # the header lists what was dropped; the definition must be identical
 check("harmless rewrite: identical definition", body(t0) == body(t1), "\n" + t0 + "\n-----\n" + t1)
+check("dropped verif hooks are listed", sum("verif" in d for d in r1[0].get("dropped", [])) == 2, r1)
 check("dropped log line is listed", any("tracing::debug!" in d for d in r1[0].get("dropped", [])), r1)
 
 SEMANTIC = [
